@@ -23,7 +23,7 @@ EXPLANATION = (
     "that compares the size of a collection with a literal (cardinality cut-off) - only emptiness, domain-membership "
     "and arithmetic guards may skip; (O4) no structural shape dispatch of linear constraints falls through silently "
     "and the encoder's linearisation consumes (or loudly rejects) every expression tag; (O5) decoding reads, for each "
-    "named variable, only that variable's own literals and returns a value of its domain. (O7) each boolean-id counter is written only by its initialisation and its allocator, auxiliary variables draw their literals from the encoder's allocator, and the encoder stores nothing in the model. (O8) in the scheduling encoders an additive term never mixes the start of one task with the duration of another. (O9) partial-sum domains are clamped against the target only by what the remaining variables can contribute, and sum_le / sum_ge are mirror images. (O10) cumulative emits its capacity clauses for every instant up to and including the latest possible start. NOT decided: clause-level "
+    "named variable, only that variable's own literals and returns a value of its domain. (O7) each boolean-id counter is written only by its initialisation and its allocator, auxiliary variables draw their literals from the encoder's allocator, and the encoder stores nothing in the model. (O8) in the scheduling encoders an additive term never mixes the start of one task with the duration of another. (O9) partial-sum domains are clamped against the target only by what the remaining variables can contribute, and sum_le / sum_ge are mirror images. (O10) cumulative emits its capacity clauses for every instant up to and including the latest possible start. (O11) circuit excludes every value outside the node indices. NOT decided: clause-level "
     "correctness of each pairwise / partial-sum / MTZ / time-indexed encoding."
 )
 
@@ -250,6 +250,25 @@ def check_partial_sum_domains(ctx: Ctx, oid: str):
     ctx.ob(oid, "R18 SIBLING-AGREEMENT (expression)", le, "sum_le and sum_ge build their partial-sum domains as mirror images (min/max, lb/ub, rest_min/rest_max swapped)", a_le is not None and mirror(a_le) == a_ge and mirror(b_le) == b_ge, f"sum_le ({b_le}, {a_le}) / sum_ge ({a_ge}, {b_ge})", node=le.node)
 
 
+def check_circuit_universe(ctx: Ctx, oid: str):
+    """circuit speaks about node indices 0..n-1 only: every other value of a successor variable's declared domain must be
+    excluded explicitly (all the other clauses of the encoding range over `j in range(n)` and leave such values free)"""
+    f = ctx.func(ENCMOD, "SATEncoder._encode_circuit")
+    cfg = cfg_of(f.node)
+    gv = GuardView(cfg)
+    ok = False
+    for n in own_nodes(f.node):
+        if isinstance(n, ast.Call) and ast.unparse(n.func) == "self._clauses.append" and isinstance(n.args[0], ast.List) and len(n.args[0].elts) == 1 and isinstance(n.args[0].elts[0], ast.UnaryOp):
+            nn = cfg.stmt_node_containing(n)
+            at = gv.guard_atoms(nn, stable_only=False)
+            lp = nn.loop
+            over_all_values = lp is not None and lp.kind == "for" and ast.unparse(lp.ast.iter).endswith(".bool_vars.items()") or (lp is not None and lp.kind == "for" and ".bool_vars" in ast.unparse(lp.ast.iter))
+            outside = any(a.startswith("OR(") and "val" in a and (" < 0" in a or "0 > " in a) and ("n <= val" in a or "val >= n" in a) for a in at)
+            if over_all_values and outside:
+                ok = True
+    ctx.ob(oid, "R11 TOTAL-DISPATCH", f, "values of a successor variable outside 0..n-1 are excluded by unit clauses over the variable's whole declared domain", ok, "every other clause of the circuit encoding ranges over node indices; a value beyond them is left unconstrained and is returned as a 'successor'", node=f.node)
+
+
 def run(ctx: Ctx):
     m = ctx.repo.module(ENCMOD)
     solve = ctx.func(ENCMOD, "SATEncoder.solve")
@@ -316,6 +335,7 @@ def run(ctx: Ctx):
     check_id_allocation(ctx, "C06-O7")
     check_same_task(ctx, "C06-O8")
     check_partial_sum_domains(ctx, "C06-O9")
+    check_circuit_universe(ctx, "C06-O11")
     check_cumulative_horizon(ctx, "C06-O10")
 
     # O4 dispatch totality / expression tags
@@ -467,6 +487,11 @@ def _t_cumulative_start_instants(tree):
     M.replace_expr(g, lambda e: M.src_is(e, "range(min_start, max_end)"), M.expr("range(min_start, max_end + 1)"))
 
 
+def _v_circuit_values_unbounded(tree):
+    g = M.find_func(tree, "SATEncoder._encode_circuit")
+    M.replace_stmt(g, lambda s: isinstance(s, ast.For) and M.src_has(s, "val < 0 or val >= n"), [])
+
+
 def _t_reformat(tree):
     pass
 
@@ -500,5 +525,6 @@ VARIANTS = [
     M.Variant("sum_le clamps the partial sum at the target, ignoring negative remaining variables (seed C06-E)", ENC, _v_sum_le_clamp_ignores_rest, "C06-O9"),
     M.Variant("cumulative scans start instants with an exclusive upper end (seeds C05-E / C06-F)", ENC, _v_cumulative_last_start_unchecked, "C06-O10"),
     M.Variant("twin: cumulative scans up to and including the latest start", ENC, _t_cumulative_start_instants, None),
+    M.Variant("circuit leaves successor values outside 0..n-1 unconstrained (original defect)", ENC, _v_circuit_values_unbounded, "C06-O11"),
     M.Variant("twin: reformat", ENC, _t_reformat, None),
 ]
